@@ -107,6 +107,129 @@ func outAndBack(c *caseCtx, s state) ([]string, bool) {
 	return nil, false
 }
 
+// twoOutAndBacks: two three-ply lines [x1 y x1-back] and [x2 y x2-back] with different officers x1, x2 of
+// the side to move and the same quiet reply y: same final position, same number of plies, but different
+// pieces have moved.
+func twoOutAndBacks(c *caseCtx, s state) ([]string, []string, bool) {
+	xs := legalMoves(s.pos, s.turn)
+	c.r.Shuffle(len(xs), func(i, j int) { xs[i], xs[j] = xs[j], xs[i] })
+	var offs []board.Move
+	for _, x := range xs {
+		if x.Type == board.Normal && x.Piece != board.King && x.Piece != board.Pawn {
+			offs = append(offs, x)
+		}
+	}
+	for i := 0; i < len(offs); i++ {
+		for j := i + 1; j < len(offs); j++ {
+			x1, x2 := offs[i], offs[j]
+			if x1.From == x2.From {
+				continue
+			}
+			p1, _ := s.pos.Move(x1)
+			for _, y := range legalMoves(p1, s.turn.Opponent()) {
+				if y.IsCapture() || y.Type != board.Normal && y.Type != board.Push {
+					continue
+				}
+				line := func(x board.Move) ([]string, *board.Position, bool) {
+					a, ok := s.pos.Move(x)
+					if !ok {
+						return nil, nil, false
+					}
+					var yy board.Move
+					found := false
+					for _, m := range legalMoves(a, s.turn.Opponent()) {
+						if m.Equals(y) && m.Type == y.Type {
+							yy, found = m, true
+						}
+					}
+					if !found {
+						return nil, nil, false
+					}
+					b2, _ := a.Move(yy)
+					for _, xb := range legalMoves(b2, s.turn) {
+						if xb.Type == board.Normal && xb.From == x.To && xb.To == x.From {
+							end, _ := b2.Move(xb)
+							return []string{uciMove(x), uciMove(yy), uciMove(xb)}, end, true
+						}
+					}
+					return nil, nil, false
+				}
+				l1, e1, ok1 := line(x1)
+				l2, e2, ok2 := line(x2)
+				if ok1 && ok2 && *e1 == *e2 {
+					return l1, l2, true
+				}
+			}
+		}
+	}
+	return nil, nil, false
+}
+
+// asymmetricExcursions: two eight-ply lines from s that both return to the position of s without
+// repeating it in between, such that in the first the side to move has taken two officers out and back
+// and the opponent one, in the second the other way round: same position, same ply, same hash, but
+// different pieces count as moved.
+func asymmetricExcursions(c *caseCtx, s state) ([]string, []string, bool) {
+	type ft struct{ from, to board.Square }
+	offs := func(p *board.Position, t board.Color) []ft {
+		var r []ft
+		for _, m := range legalMoves(p, t) {
+			if m.Type == board.Normal && m.Piece != board.King && m.Piece != board.Pawn {
+				r = append(r, ft{m.From, m.To})
+			}
+		}
+		c.r.Shuffle(len(r), func(i, j int) { r[i], r[j] = r[j], r[i] })
+		return r
+	}
+	play := func(seq []ft) ([]string, *board.Position, bool) {
+		p, t := s.pos, s.turn
+		var out []string
+		for _, x := range seq {
+			found := false
+			for _, m := range legalMoves(p, t) {
+				if m.From == x.from && m.To == x.to && m.Type == board.Normal {
+					next, ok := p.Move(m)
+					if !ok {
+						return nil, nil, false
+					}
+					out = append(out, uciMove(m))
+					p, t, found = next, t.Opponent(), true
+					break
+				}
+			}
+			if !found {
+				return nil, nil, false
+			}
+		}
+		return out, p, true
+	}
+	back := func(x ft) ft { return ft{x.to, x.from} }
+	xs := offs(s.pos, s.turn)
+	// the opponent's officers, seen from the position itself (side switched)
+	ys := offs(s.pos, s.turn.Opponent())
+	for i := 0; i < len(xs) && i < 6; i++ {
+		for j := 0; j < len(xs) && j < 6; j++ {
+			if xs[i].from == xs[j].from {
+				continue
+			}
+			for k := 0; k < len(ys) && k < 6; k++ {
+				for l := 0; l < len(ys) && l < 6; l++ {
+					if ys[k].from == ys[l].from {
+						continue
+					}
+					x1, x2, y1, y2 := xs[i], xs[j], ys[k], ys[l]
+					a, ea, oka := play([]ft{x1, y1, x2, back(y1), back(x1), y1, back(x2), back(y1)})
+					b, eb, okb := play([]ft{x1, y1, back(x1), y2, x1, back(y1), back(x1), back(y2)})
+					if oka && okb && *ea == *s.pos && *eb == *s.pos {
+						return a, b, true
+					}
+				}
+			}
+		}
+	}
+	return nil, nil, false
+}
+
 // C18: what a search returns depends only on the game state and the depth.
 func casesDeterminism(c *caseCtx) {
 	ctx := context.Background()
@@ -244,6 +367,34 @@ func casesDeterminism(c *caseCtx) {
 				b2, _, ok2 := analyse(ctx, e7, bare, nil, depth)
 				if okb && ok2 && b2.String() != refBare.String() {
 					viol("history-carry-over", fmt.Sprintf("%s :: set up from its FEN after searching the game, the engine returned [%s], a new engine [%s]", label, b2, refBare))
+				}
+			}
+		}
+		// (8) two games that end in the same position after the same number of plies but in which different
+		// pieces have moved: the second is searched after the first on one engine
+		if l1, l2, ok := twoOutAndBacks(c, cur); ok {
+			ga := append(append([]string{}, moves...), l1...)
+			gb := append(append([]string{}, moves...), l2...)
+			if refB, _, okB := analyse(ctx, mk(0, 0), f, gb, depth); okB {
+				e8 := mk(0, 0)
+				_, _, _ = analyse(ctx, e8, f, ga, depth)
+				a, _, ok1 := analyse(ctx, e8, f, gb, depth)
+				if ok1 && a.String() != refB.String() {
+					viol("history-carry-over", fmt.Sprintf("%s + [%s] after [%s] :: the engine returned [%s], a new engine [%s]", label, strings.Join(l2, " "), strings.Join(l1, " "), a, refB))
+				}
+			}
+		}
+		// (9) as (8) with asymmetric excursions (two officers of one side and one of the other have moved,
+		// or the other way round)
+		if l1, l2, ok := asymmetricExcursions(c, cur); ok {
+			ga := append(append([]string{}, moves...), l1...)
+			gb := append(append([]string{}, moves...), l2...)
+			if refB, _, okB := analyse(ctx, mk(0, 0), f, gb, depth); okB {
+				e9 := mk(0, 0)
+				_, _, _ = analyse(ctx, e9, f, ga, depth)
+				a, _, ok1 := analyse(ctx, e9, f, gb, depth)
+				if ok1 && a.String() != refB.String() {
+					viol("history-carry-over", fmt.Sprintf("%s + [%s] after [%s] :: the engine returned [%s], a new engine [%s]", label, strings.Join(l2, " "), strings.Join(l1, " "), a, refB))
 				}
 			}
 		}
